@@ -9,8 +9,8 @@ CONSTANTS
   VoterSets = {{1}, {1, 2}, {1, 3}}
   Datas = {1, 2, 3}
   MaxBatch = 2
-  StaleSuffix = TRUE
+  StaleSuffix = FALSE
   Depth = 30
-  Faults = FALSE
+  Faults = TRUE
 INVARIANT Emit
 CHECK_DEADLOCK FALSE
